@@ -1528,7 +1528,14 @@ func c17R11(p *core.Prog, r *core.Report) {
 			if len(edges) == 0 {
 				check(core.Reach{Stop: releases, StopEdge: respNil}.FromInstr(do))
 			}
+			// a release registered before the error is looked at (`if resp != nil { defer resp.Close() }`)
+			// covers the edges behind it: only edges that can be reached from the request without
+			// passing a release (and without the response being nil) are starting points
+			early := core.Reach{Stop: releases, StopEdge: respNil}.FromInstr(do)
 			for _, e := range edges {
+				if li := core.LastInstr(e[0]); li != nil && e[0] != do.Block() && !early[li] {
+					continue
+				}
 				check(core.Reach{Stop: releases, StopEdge: errPhiCut(e)}.FromEdge(e[0], e[1]))
 			}
 			r.Check(bad == "", rule, p.FuncName(fn), label, p.Pos(do.Pos()), "the return at "+bad+" is reachable from the success edge of this request without the response being closed, deferred-closed, returned, stored or handed on: the request slot of the host stays taken for the lifetime of the client")
